@@ -12,7 +12,7 @@ OCONFS = [('1', '8', 'c'), ('2', '8', 'm'), ('4', '4', 'c'), ('4', '8', 'm'), ('
 TRUSTED = ['Coq 8.16.1 kernel; no axioms', 'extraction: ExtrOcamlBasic only; ocaml/resizeproto_driver.ml', 'projection: tools/lfhtx_common.py project_resize() (trusted)',
            'harness: scen_lfhtx.c (abstract RCU flavor whose synchronize_rcu waits for the sections open at its start and is a full barrier; recording allocator with quarantine), sched.c',
            'modelled: resize as alloc / link / size store (at the instant it becomes visible) / synchronize / flag / unlinked / free actions per bucket table; readers as sections that read size and obtain '
-           'pointers into tables; Resize.v models the loop arithmetic of _do_cds_lfht_resize sequentially; the lazy (work-queue) resize, the partitioned multi-thread resize and destroy with queued resizes are not run here; '
+           'pointers into tables; Resize.v models the loop arithmetic of _do_cds_lfht_resize sequentially; the partitioned multi-thread resize runs with MIN_PARTITION_PER_THREAD_ORDER overridden to 0 and pthread_create fault choices; the lazy (work-queue) resize and destroy with queued resizes are not run here; '
            'the protocol acceptor runs on order-allocator configurations (chunk and mmap allocators: oracles only)']
 def nontrivial(raw): return ' free tb' in raw or re.search(r'^\d+ note alloc tb', raw, flags=re.M) is not None
 def run(ctx):
@@ -28,6 +28,12 @@ def run(ctx):
                 for w1 in ((4, 9, 15) if ctx.quick() else (2, 4, 6, 9, 12, 15, 20)):
                     cases.append((prog, '0' * p1 + '1' * w1 + '0000000001' * 60, ('2', '8', 'o')))
         X.run_cases(ctx, 'resize', impl, cases, proto_driver=driver, nontrivial=nontrivial)
+        pimpl = X.build_part(ctx)
+        if pimpl:
+            # partitioned resize: helper threads per level, chosen pthread_create calls fail with EAGAIN (leftover partitions done by the caller)
+            pconfs = [('2', '8', 'o', '3', str(m)) for m in (0, 1, 2, 4, 6, 8, 10, 32, 48, 5)] + [('1', '8', 'o', '1', '0'), ('4', '8', 'o', '3', '16')]
+            pprogs = ['A3A6A9/L3L6TL9/Z3Z1Z3', 'A0A4A3A6/Z3L6TL4/Z0Z2T', 'U3U5U6/Z2Z3L6L3T/L5TZ1']
+            X.run_cases(ctx, 'partitioned resize with thread-creation faults', pimpl, X.gen(ctx, pprogs, n // 2, 'C09p', pconfs), proto_driver=driver, nontrivial=lambda raw: ' create ' in raw)
         X.run_cases(ctx, 'resize (chunk / mmap allocators, unbounded max)', impl, X.gen(ctx, PROGS, n // 2, 'C09x', OCONFS), nontrivial=nontrivial)
     return finish(ctx, trusted=TRUSTED, rule='parking sweeps (every thread frozen at each step, incl. the resizer between size store, synchronize, unlink and free; updaters between reading size and '
                   'their cmpxchg), double parking (resizer stopped inside a shrink while a reader enters and obtains bucket pointers) + bursty schedules; tables of initial size 1-8, max 4/8/unbounded, with the '
